@@ -34,6 +34,7 @@ class ConvRef(Monitor):
         self.same_instant_entries = False
         self.offgrid = False
         self.entered_stalled = set()   # items that entered while the head was waiting at the exit
+        self.any_entered_stalled = False
         self.between_slots = False     # a stall began while a follower was between two slot positions
 
     # ---- reference dynamics
@@ -89,6 +90,7 @@ class ConvRef(Monitor):
                         self.same_instant_entries = True
             if self.head_waiting():
                 self.entered_stalled.add(x.n)
+                self.any_entered_stalled = True
             self.s[x.n] = 0.0
             self.order.append(x.n)
             self.entered = x
@@ -116,11 +118,15 @@ class ConvRef(Monitor):
                 self.ever_stalled = True
 
     def ref_state(self, w):
-        return (tuple((w.items[n].obj, round(self.s[n], 6), n in self.entered_stalled) for n in self.order), self.ever_stalled, self.between_slots, self.stalled_prev_end,
+        return (tuple((w.items[n].obj, round(self.s[n], 6), n in self.entered_stalled) for n in self.order), self.ever_stalled, self.between_slots,
+                self.any_entered_stalled, self.stalled_prev_end,
                 self.stalled_now_end, self.same_instant_entries, self.offgrid)
 
     def facets(self, w, **kw):
         f = {"acc": self.acc, "conv": w.spec.kind}
+        r = self.T / self.tau
+        if abs(r - round(r)) > 1e-9:
+            f["length_multiple_of_item"] = False
         f.update(kw)
         return f
 
@@ -141,11 +147,12 @@ class C12(ConvRef):
                          % (self.entered.n, w.now, last, s, self.tau,
                             "its space reservation was granted before i%d entered" % last if early_grant else "reservation granted after that entry"),
                          **self.facets(w, reservation_predates_previous_entry=early_grant, after_stall=self.ever_stalled,
-                                       prev_entered_during_stall=last in self.entered_stalled)))
+                                       entry_during_stall_before=self.any_entered_stalled)))
         if op[0] == "get" and obs.get("item") is not None:
             x = obs["item"]
             older = [y for y in w.inside() if y.n < x.n]
-            if older and len([t for t in w.toks if t.side == "g" and t.status == GRANTED]) == 0:
+            # only with an eager consumer: otherwise the caller may itself use a later reservation first (C12Order judges that)
+            if older and w.spec.get("eager_get") and len([t for t in w.toks if t.side == "g" and t.status == GRANTED]) == 0:
                 out.append(V("C12", "leave-in-entry-order", w, "%r left the conveyor while %r, which entered earlier, is still on it"
                              % (x.obj, older[0].obj), **self.facets(w)))
             if w.now < x.t_put + self.T - TOL:
